@@ -312,7 +312,18 @@ pub fn arg_for(p: &Pat, ctr: &mut i64, style: usize) -> T {
     }
 }
 
-pub const PARAM_KINDS: [&str; 6] = ["main", "defun-rest", "inline-rest", "lambda", "defun-positional", "inline-positional"];
+/// the `-if` kinds put the observer in both arms of a conditional inside the function (every `if` re-creates the
+/// function's environment); they are generated for parameter shapes with an (@ name pattern) capture, whose
+/// whole sub-value - including members beyond the sub-pattern - is observable
+pub const PARAM_KINDS: [&str; 8] = ["main", "defun-rest", "inline-rest", "lambda", "defun-positional", "inline-positional", "defun-rest-if", "inline-rest-if"];
+
+fn pat_has_at(p: &Pat) -> bool {
+    match p {
+        Pat::At(_, _) => true,
+        Pat::Cons(a, b) => pat_has_at(a) || pat_has_at(b),
+        _ => false,
+    }
+}
 
 /// lower-case names that are also operator / form keywords. `a`, `c` and `i` are left out: the stock
 /// (non-hygienic) `if` and `list` macros expand to those operator names, so a variable of that name
@@ -373,6 +384,19 @@ pub fn params_case(p: &Pat, kind: &str, sigil: Option<&'static str>) -> Option<C
             helpers: vec![Helper::Fun { name: "F".to_string(), inline: kind == "inline-rest", params: p.clone(), body: obs }],
             body: E::Call("F".to_string(), vec![], Some(Box::new(E::v("ARGS")))),
         },
+        "defun-rest-if" | "inline-rest-if" => {
+            if !pat_has_at(p) || names.is_empty() {
+                return None;
+            }
+            let cond = E::prim("l", vec![E::Var(names[names.len() - 1].clone())]);
+            let body = E::If(Box::new(cond), Box::new(observer(201, &names)), Box::new(observer(202, &names)));
+            Prog {
+                sigil,
+                params: whole,
+                helpers: vec![Helper::Fun { name: "F".to_string(), inline: kind == "inline-rest-if", params: p.clone(), body }],
+                body: E::Call("F".to_string(), vec![], Some(Box::new(E::v("ARGS")))),
+            }
+        }
         "lambda" => Prog { sigil, params: whole, helpers: vec![], body: E::Apply(Box::new(E::Lambda(vec![], p.clone(), Box::new(obs))), Box::new(E::v("ARGS"))) },
         "defun-positional" | "inline-positional" => {
             // only for proper flat lists of names: main takes the same number of parameters and passes them on
